@@ -2040,6 +2040,10 @@ class StepBudget(BaseException):
     """Raised by the step monitor; deliberately not an Exception subclass."""
 
 
+class CaseWatchdog(BaseException):
+    """Generous per-case wall-clock watchdog: its firing is INCONCLUSIVE for that case, never a violation."""
+
+
 class Observers:
     def __init__(self, repo):
         self.repo = os.path.realpath(repo)
@@ -2185,6 +2189,12 @@ def cmd_hostile(args):
         pass
     from xdis.magics import PYTHON_MAGIC_INT
     import struct as _struct
+    import signal as _signal
+
+    def _on_alarm(signum, frame):
+        raise CaseWatchdog()
+
+    _signal.signal(_signal.SIGALRM, _on_alarm)
     obs = Observers(REPO)
     obs.start_steps()
     acc.count("c11_step_counter_" + obs.mode.replace(".", "_"))
@@ -2268,6 +2278,7 @@ def cmd_hostile(args):
             outcome = None
             err = None
             obs.active = True
+            _signal.setitimer(_signal.ITIMER_REAL, args.get("case_watchdog_s", 30))
             try:
                 try:
                     r = load_module(case_path)
@@ -2276,12 +2287,15 @@ def cmd_hostile(args):
                     outcome = "ImportError"
                 except StepBudget:
                     outcome = "step-budget"
+                except CaseWatchdog:
+                    outcome = "watchdog"
                 except BaseException as e:
                     if isinstance(e, KeyboardInterrupt):
                         raise
                     outcome = "escape"
                     err = (type(e).__name__, raise_site(sys.exc_info()[2], REPO), str(e)[:120])
             finally:
+                _signal.setitimer(_signal.ITIMER_REAL, 0)
                 obs.active = False
             peak = None
             if trace_mem:
@@ -2320,6 +2334,8 @@ def cmd_hostile(args):
             acc.mismatch("C11|%s" % outcome, **wit)
         elif outcome == "step-budget":
             acc.mismatch("C11|step-budget-exceeded|%s" % cls, budget=a_steps * len(data) + b_steps, **wit)
+        elif outcome == "watchdog":
+            acc.count("c11_case_watchdog_fired_inconclusive")
         if len(data):
             maxratio = max(maxratio, steps / float(len(data) + 1000))
         if peak is not None:
